@@ -117,6 +117,36 @@ pub fn get(prop: &str, tier: &str) -> Option<Check> {
             ],
             assumptions: vec!["checked without an authorization handler (the authz veto for unconfigured ids is C01's carve-out)"],
         },
+        "C15" => Check {
+            prop: "C15",
+            rule_text: "each run: real TCP server task with max_sessions in 0..5, 4-28 actions over {connect (optionally with the oldest session left mid-frame), client close/half-close, sentinel request, bad header / read error / unknown function on one connection, set decode level, shutdown, drop handle}; after every action the set of open connections must equal model::sessions (ordered live set, limit max(1,max_sessions), oldest evicted exactly at the limit), every live session answers its sentinel correctly whatever happened on the others, after shutdown/handle drop the task has ended, every connection is closed and new connects are refused. Distinct = hash of (max_sessions, decode level, action kinds).",
+            batches: vec![
+                Batch { name: "server_sessions", f: scen::sessions::run_sessions, cfg: cfg(Mode::LockStep, false, 0), runs: n(100_000, 3_000_000), real: REAL_SERVER_TCP, stub: STUB_SERVER_TCP },
+            ],
+            assumptions: vec!["TLS servers share the session tracker; the TLS handshake phase is judged under C07/C09"],
+        },
+        "C16" => Check {
+            prop: "C16",
+            rule_text: "each run: a filter from {Any, Exact, AnyOf(1-4), wildcard over the octet lattice {0,1,10,127,128,192,254,255,*}} and 1-6 peers with source addresses from the same lattice +-1 octet, IPv6 loopback/ULA and v4-mapped v6; a non-matching peer must receive zero bytes, see EOF and reach no handler, a matching peer must be served; 4 wildcard strings per run from the grammar of well- and ill-formed forms against the parser. Distinct = hash of filter and peer addresses.",
+            batches: vec![
+                Batch { name: "filter_tcp_rust_api", f: scen::sessions::run_filter_tcp, cfg: cfg(Mode::LockStep, false, 0), runs: n(100_000, 3_000_000), real: REAL_SERVER_TCP, stub: STUB_SERVER_TCP },
+            ],
+            assumptions: vec!["'+1' / '007' spellings of an octet are outside the generated domain (the statement does not say whether they are numbers 0-255)"],
+        },
+        "C07" => Check {
+            prop: "C07",
+            rule_text: "each run: grammar-aware garbage (valid frames, bit flips, truncations, length-field lies, raw random bytes, long 0x00/0xFF runs, repeats; up to 4000 bytes, random chunking and pauses) fed to {TCP server sessions next to a healthy session, RTU server, TCP client with an outstanding request or idle, RTU client} at a random one of the 36 decode levels with every log line formatted, overflow checks and debug assertions on; oracle: no task poll panics, no task is polled 5000 times in a row or performs 300000 I/O operations inside one poll, the healthy session answers its sentinel, every submitted request completes exactly once, a follow-up exchange succeeds after the garbage, shutdown ends every task. Plus every other batch of this harness reports task panics under C07. Distinct = hash of (role, decode level, garbage prefixes).",
+            batches: vec![
+                Batch { name: "garbage_tcp_server", f: scen::robust::run, cfg: cfg(Mode::Racy, true, 0), runs: n(40_000, 1_500_000), real: REAL_SERVER_TCP, stub: STUB_SERVER_TCP },
+                Batch { name: "garbage_rtu_server", f: scen::robust::run, cfg: cfg(Mode::Racy, true, 1), runs: n(40_000, 1_500_000), real: REAL_SERVER_RTU, stub: STUB_SERVER_RTU },
+                Batch { name: "garbage_tcp_client", f: scen::robust::run, cfg: cfg(Mode::Racy, true, 2), runs: n(40_000, 1_500_000), real: REAL_CLIENT_TCP, stub: STUB_CLIENT_TCP },
+                Batch { name: "garbage_rtu_client", f: scen::robust::run, cfg: cfg(Mode::Racy, true, 3), runs: n(40_000, 1_500_000), real: REAL_CLIENT_RTU, stub: STUB_CLIENT_RTU },
+                Batch { name: "server_tcp_model", f: scen::server_tcp::run_model, cfg: cfg(Mode::LockStep, false, 0), runs: n(20_000, 500_000), real: REAL_SERVER_TCP, stub: STUB_SERVER_TCP },
+                Batch { name: "rtu_server_model", f: scen::rtu::run_server_model, cfg: cfg(Mode::LockStep, false, 0), runs: n(20_000, 500_000), real: REAL_SERVER_RTU, stub: STUB_SERVER_RTU },
+                Batch { name: "client_lockstep", f: scen::client::run_lockstep, cfg: cfg(Mode::LockStep, true, 2), runs: n(20_000, 500_000), real: REAL_CLIENT_TCP, stub: STUB_CLIENT_TCP },
+            ],
+            assumptions: vec!["a peer that never reads is a bounded-liveness premise, not a violation (flow-control stalls are finite)", "TLS handshake phase: see C09 and the known finding on handshake deadlines"],
+        },
         _ => return None,
     })
 }
